@@ -360,6 +360,8 @@ def run_lock_facts(R, pid, d, work, seed, tier):
             sig = "C19:unprotected-access:%s:%s:%s" % (f[1], f[4], f[3])
         elif f[0] == "GETTER":
             sig = "C19:getter-assigns-field:%s:%s" % (f[1], f[2])
+        elif f[0] == "SECTIONS":
+            sig = "C19:operation-split-into-two-critical-sections:%s:%s" % (f[1], f[-1])
         elif f[0] in ("BALANCE", "REACQUIRE", "SHAPE", "UNRESOLVED"):
             sig = "C19:%s:%s" % (f[0].lower(), ":".join(f[1:]))
         elif f[0] == "ACYCLIC" and f[1] != "true":
